@@ -163,6 +163,11 @@ def _recover(job):
     fam, tau, seed, n = job
     rs = np.random.RandomState(seed)
     X = np.clip(draw(fam, theta_of(fam, tau), n, rs), 1e-9, 1 - 1e-9)
+    if n > 9000 or seed % 4 == 0:
+        # a sample is a set of rows: here they arrive sorted by the first column (ascending or descending)
+        X = X[np.argsort(X[:, 0], kind='stable')]
+        if seed % 2:
+            X = X[::-1].copy()
     try:
         return select_copula(X).copula_type.name == fam
     except Exception:
@@ -174,7 +179,7 @@ def run(ctx):
     ctx.rule = ('(a) the KendallFit enumeration (all permutations n<=%s, tie cases, random longer columns): TLC computes the admissible '
                 'candidate set of select_copula exactly; the real function must return a member carrying the shared Kendall tau and its own '
                 'calibration, identically on a second call with another global RNG state, on permuted rows and through the deprecated alias; '
-                '(b) recovery: samples of n=3000 and 7777 (thorough: also 5000, 12345) from Clayton / Frank / Gumbel drawn by independent samplers (conditional inverse, '
+                '(b) recovery: samples of n=3000, 7777 and 11003 (thorough: also 5000, 12345, 20011; those above 9000 rows and a quarter of the others arrive sorted by the first column) from Clayton / Frank / Gumbel drawn by independent samplers (conditional inverse, '
                 'Marshall-Olkin) at tau 0.3, 0.5, 0.7, %s seeds per cell; TLC (Acceptance) requires >= 70 %% recovered per cell. '
                 '(d) samples of 6000 rows (thorough: also 12001) at tau 0.04 / 0.09 selected six times under different global generator states: one answer, generator untouched; an earlier result is not changed by later calls; (c) five sequences of 14 neighbouring data sets (n = 150..400, taus a few 1e-4 apart) selected one after the other in one process: each answer is the calibration of its own tau.  non-trivial = positive tau (more than one candidate); distinct by input') % (('6', '10') if quick else ('7', '40'))
     ctx.assumptions = ['the scoring arithmetic of select_copula is not pinned (any member of the candidate set is accepted)',
@@ -183,7 +188,7 @@ def run(ctx):
     with Pool(16) as pool:
         res = pool.map(_check, cases, chunksize=16)
         ns = 10 if quick else 40
-        sizes = (3000, 7777) if quick else (3000, 5000, 7777, 12345)       # n >= 3000, deliberately not round numbers only
+        sizes = (3000, 7777, 11003) if quick else (3000, 5000, 7777, 12345, 20011)       # n >= 3000, deliberately not round numbers only
         jobs = [(f, t, ctx.seed * 1000 + 17 * i + j + n, n) for f in ('CLAYTON', 'FRANK', 'GUMBEL') for j, t in enumerate((0.3, 0.5, 0.7))
                 for n in sizes for i in range(ns)]
         rec = pool.map(_recover, jobs, chunksize=2)
